@@ -46,7 +46,7 @@ func init() {
 	}}
 	qo.Profile = kv.Uniform(3).With(kv.KPurge, 2, kv.KSet, 8, kv.KAdd, 5, kv.KDelete, 6, kv.KSetX, 5, kv.KWriteWX, 5, kv.KDropColl, 1)
 	qo.Steps = 60
-	qo.Keys = []string{"k0", "k1", "k2", "k12", "e1"}
+	qo.Keys = []string{"k0", "k1", "k2", "k12", "e1", "K1", "E12"}
 	sup.Register(&sup.Check{
 		Prop: "C19", Level: "exploration",
 		Rule: "engine A histories over three collections sharing key names; at PRNG-chosen points a family of eleven SQLite queries over $_keyspace (exact id/hex(body)/xattr values of every row, LIKE with a named parameter, ORDER BY .. LIMIT, a statement mentioning $_keyspace twice, comparisons on body->>'n', body->>'t', xattrs->'_sync'->>'seq', `xattrs IS NULL`, the raw xattrs column, rows whose first or middle columns are SQL NULL) is executed through Next and NextBytes on in-memory (pre-recorded iterator) and on-disk (streaming iterator) buckets and compared with the same predicate evaluated natively over the KV read-back of that collection; (short bodies) JSON documents of 6-9 bytes, which SQLite could take for its binary JSONB; (raw bodies) a body-property query over a collection holding a non-JSON body must fail or be complete; (stale DataStore) after another handle dropped a collection (and created another one), a query through the DataStore still held for the dropped collection must return no rows, on in-memory and on-disk buckets alike; query cases with a literal % / modulo operator in the statement text and with column aliases containing a quote, a backslash, a tab and a newline; xattr values include bare numbers; (real time) a document past its expiry time but not yet tombstoned keeps its row whenever Exists reports it right before and after the query; cell = (query, number of live docs, tombstones present, bucket type)",
